@@ -227,6 +227,9 @@ def root_exprs(quick):
                                        "c": opbuild.T([], [2])})
     add("Kron(Dense,Dense)", lambda: {"cls": "Kron", "ops": [opbuild.gen(rng, "Dense", m=2, psd=True),
                                                               opbuild.gen(rng, "Dense", m=2, psd=True)]})
+    add("BlockDiag(Dense)", lambda: {"cls": "BlockDiag", "base": opbuild.gen(rng, "Dense", batch=[2], m=2, psd=True),
+                                     "block_dim": -3})
+    add("BatchRepeat(Dense)", lambda: {"cls": "BatchRepeat", "base": opbuild.gen(rng, "Dense", m=3, psd=True), "rep": [2]})
     add("Dense5", lambda: opbuild.gen(rng, "Dense", m=5, psd=True))
     add("Dense1", lambda: opbuild.gen(rng, "Dense", m=1, psd=True))
     add("Dense[2]x3", lambda: opbuild.gen(rng, "Dense", batch=[2], m=3, psd=True))
@@ -590,9 +593,10 @@ def pf_lit(p):
     if p.get("kron") is not None:
         eig = "(EigKron %s)" % nlist(p["kron"])
     cm = "(Some %d)" % p["cm_root"] if p["cm_root"] is not None else "None"
-    return "(pf %s %s %s %s %s %s %s %s)" % (td, nlist(p["td_kids"]), common.coq_bool(p["chol_ignore"]), eig, cm,
-                                             common.coq_bool(p["precond"]), common.coq_bool(p["sum"]),
-                                             common.coq_bool(p["iqld_to"]))
+    dg = "None" if p.get("deleg") is None else "(Some %s)" % common.coq_bool(p["deleg"])
+    return "(pf %s %s %s %s %s %s %s %s %s)" % (td, nlist(p["td_kids"]), common.coq_bool(p["chol_ignore"]), eig, cm,
+                                                common.coq_bool(p["precond"]), common.coq_bool(p["sum"]),
+                                                common.coq_bool(p["iqld_to"]), dg)
 
 
 def st_lit(s):
@@ -788,7 +792,8 @@ def plan(ctx, exprs):
     for label, expr in exprs:
         n0 = len(jobs)
         if ctx.quick:
-            full2 = label in ("Dense", "AddedDiag(Dense,ConstantDiag)", "AddedDiag(Dense,Diag)", "Kron(Dense,Dense)")
+            full2 = label in ("Dense", "AddedDiag(Dense,ConstantDiag)", "AddedDiag(Dense,Diag)", "Kron(Dense,Dense)",
+                              "BlockDiag(Dense)", "BatchRepeat(Dense)")
             if full2:
                 for h in enum_histories(Q_CORE, D_CORE, 2):
                     jobs.append((label, expr, h))
@@ -947,8 +952,10 @@ def problems_of(label, rec):
                 continue
             if ev[0] == "q" and bi == tgt and stp.get("valid") is False and stp.get("fresh_valid") is False:
                 # the query's own answer is invalid on a fresh clone as well: the class's factorization itself is
-                # wrong (C04-C06), the entry it leaves behind is no cache effect
+                # wrong (C04-C06), the entry it leaves behind is no cache effect (recorded, so that the triage knows the
+                # step is explained; never reported: OUTSIDE_HYPOTHESES)
                 newc[ident] = "kernel"
+                out.append((si, {"cause": "kernel", "op": op, "fail": "entry", "root": label}, why))
                 continue
             if inherited and inherited != "kernel":
                 cause = inherited
@@ -1055,6 +1062,13 @@ def run(ctx):
         for d in D_CORE:
             for c in (Q_CORE if not ctx.quick else [Q_CORE[k] for k in (1, 3, 4, 6, 10, 11, 14)]):
                 ojobs.append((label, expr, [("d", d, False), ("q", c, False)]))
+        # cache-driven method choice: a query that leaves an eigen-decomposition / a Cholesky factor in some cache, then
+        # a factorization whose parts are fetched through _choose_root_method
+        for q in (["logdet"], ["diagonalization", [], []], ["svd"], ["cholesky", [], []]):
+            for c in (["root_decomposition", [], []], ["root_inv_decomposition", [], []],
+                      ["root_decomposition", [], [["method", S("lanczos")]]],
+                      ["root_inv_decomposition", [], [["method", S("lanczos")]]], ["sample", 0]):
+                ojobs.append((label, expr, [("q", q, False), ("q", c, False)]))
         if not ctx.quick:
             for q in Q_CORE:
                 for c in Q_CORE:
